@@ -56,7 +56,14 @@ func runSolver(ctx context.Context, sp solverSpec, file string, sec int) (string
 	_ = cmd.Run()
 	ms := time.Since(start).Milliseconds()
 	text := out.String()
-	first := strings.TrimSpace(strings.SplitN(text, "\n", 2)[0])
+	first := ""
+	for _, ln := range strings.Split(text, "\n") {
+		ln = strings.TrimSpace(ln)
+		if ln == "sat" || ln == "unsat" || ln == "unknown" || ln == "timeout" {
+			first = ln
+			break
+		}
+	}
 	switch first {
 	case "unsat", "sat", "unknown", "timeout":
 	default:
